@@ -53,3 +53,15 @@ Example C04_nonvacuous_128_buckets_sparse :
                       (4, ([3; 0; 3], [5])); (3, ([3; 3], [44; 44])); (2, ([14; 0; 14], [6]));
                       (1, ([5; 0; 5], [3]))], 0, [None; None]).
 Proof. exact C04_nonvacuous_nb128. Qed.
+
+(** at byte level (Io.v): on the image of the table file the bitmap scan, performed with real
+    seeks and reads (8-byte, 1-byte and bucket strides), returns what the record-level scan returns
+    and is a read-only step: no write, no seek beyond the end of the file (the seeded changes C15 and
+    C18 broke exactly this) *)
+From Aby Require Import Load Layout Io Io_base Io_htx Io_proofs.
+Theorem C04_byte_level_bucket_scan : forall sig2 h,
+  length sig2 = 8%nat -> htx_wf h -> (forall i, head_at h i < 2 ^ 64) -> nb h < 2 ^ 64 -> count h < 2 ^ 64 ->
+  forall (s : Io.st) idx, bitmap_ok h -> holds sig2 h s -> idx < nb h ->
+  exists j off s', next_nonempty h (nb h) idx = Ok (j, off) /\
+    Io.next_key_piece_offset (nb h) idx s = Ok (j, off, s') /\ ro_step s s'.
+Proof. exact Io_b_scan_total. Qed.
